@@ -4,6 +4,7 @@ import Mathlib.Algebra.Order.Field.Basic
 import Mathlib.Tactic.Ring
 import Mathlib.Tactic.FieldSimp
 import Mathlib.Tactic.Linarith
+import Mathlib.Tactic.Abel
 /-! Proofs for `Mrpro/Props/C06.lean`. -/
 namespace M
 variable {K V : Type} [Field K] [LinearOrder K] [IsStrictOrderedRing K] [AddCommGroup V] [Module K V]
@@ -12,43 +13,409 @@ def modOps' (B : V →ₗ[K] V →ₗ[K] K) : VecOps K V :=
   ⟨fun u v => u + v, fun u v => u - v, fun c v => c • v, fun u v => B u v⟩
 def start' (b : V) (x0 : Option V) : V := match x0 with | some v => v | none => b
 
+section helpers
+variable (B : V →ₗ[K] V →ₗ[K] K) (H : V →ₗ[K] V)
+
+/-- the search direction of the iteration (`none` = division by zero) -/
+def nextP (st : CGState K V) : Option V := match st.rrPrev with
+  | none => some st.p
+  | some prev => if prev = 0 then none else some (st.r + (B st.r st.r / prev) • st.p)
+
+def tolHit (tol2 : Option K) (rr : K) : Bool :=
+  match tol2 with | some t => decide (rr < t) | none => false
+
+def stepSt (st : CGState K V) (p : V) : CGState K V :=
+  { x := st.x + (B st.r st.r / B p (H p)) • p, r := st.r - (B st.r st.r / B p (H p)) • H p,
+    p := p, rrPrev := some (B st.r st.r) }
+
+def stepTr (st : CGState K V) (p : V) (k : Nat) : CGTrace V :=
+  { x := st.x + (B st.r st.r / B p (H p)) • p, r := st.r - (B st.r st.r / B p (H p)) • H p, k := k }
+
+omit [IsStrictOrderedRing K] in
+theorem cgLoop_zero (tol2 : Option K) (k : Nat) (st : CGState K V) (tr : List (CGTrace V)) :
+    cgLoop (modOps' B) (fun v => H v) tol2 0 k st tr = .ok st.x "budget" tr.reverse := rfl
+
+omit [IsStrictOrderedRing K] in
+theorem cgLoop_succ (tol2 : Option K) (fuel k : Nat) (st : CGState K V) (tr : List (CGTrace V)) :
+    cgLoop (modOps' B) (fun v => H v) tol2 (fuel + 1) k st tr =
+      if B st.r st.r = 0 then .ok st.x "zero-residual" tr.reverse
+      else if tolHit tol2 (B st.r st.r) then .ok st.x "tolerance" tr.reverse
+      else match nextP B st with
+        | none => .nan k tr.reverse
+        | some p =>
+          if B p (H p) = 0 then .nan k tr.reverse
+          else cgLoop (modOps' B) (fun v => H v) tol2 fuel (k + 1) (stepSt B H st p)
+            (stepTr B H st p k :: tr) := rfl
+
+/-- loop invariant -/
+def Inv (b : V) (st : CGState K V) : Prop :=
+  st.r = b - H st.x ∧
+    (match st.rrPrev with
+      | none => st.p = st.r
+      | some prev => prev ≠ 0 ∧ B st.r st.p = 0)
+
+omit [LinearOrder K] [IsStrictOrderedRing K] in
+theorem step_res (b x r p : V) (α : K) (h : r = b - H x) :
+    r - α • H p = b - H (x + α • p) := by
+  rw [h, map_add, map_smul]; abel
+
+omit [LinearOrder K] [IsStrictOrderedRing K] in
+theorem step_orth (selfadj : ∀ u v, B (H u) v = B u (H v)) (r p : V)
+    (hrp : B r p = B r r) (hphp : B p (H p) ≠ 0) :
+    B (r - (B r r / B p (H p)) • H p) p = 0 := by
+  rw [map_sub, map_smul, LinearMap.sub_apply, LinearMap.smul_apply, selfadj, hrp, smul_eq_mul,
+    div_mul_cancel₀ _ hphp, sub_self]
+
+omit [IsStrictOrderedRing K] in
+theorem nextP_spec (b : V) (st : CGState K V) (hinv : Inv B H b st) :
+    ∃ p, nextP B st = some p ∧ B st.r p = B st.r st.r := by
+  obtain ⟨_, h2⟩ := hinv
+  unfold nextP
+  cases hprev : st.rrPrev with
+  | none =>
+    rw [hprev] at h2
+    exact ⟨st.p, rfl, by rw [h2]⟩
+  | some prev =>
+    rw [hprev] at h2
+    obtain ⟨hne, horth⟩ := h2
+    refine ⟨_, if_neg hne, ?_⟩
+    rw [map_add, map_smul, horth, smul_zero, add_zero]
+
+theorem step_energy (symm : ∀ u v, B u v = B v u) (selfadj : ∀ u v, B (H u) v = B u (H v))
+    (b xs x r p : V) (hxs : H xs = b) (hr : r = b - H x) (hrp : B r p = B r r)
+    (hphp : 0 < B p (H p)) :
+    B (xs - (x + (B r r / B p (H p)) • p)) (H (xs - (x + (B r r / B p (H p)) • p)))
+      ≤ B (xs - x) (H (xs - x)) := by
+  have he : H (xs - x) = r := by rw [map_sub, hxs, hr]
+  have h1 : B (xs - x) (H p) = B r r := by rw [← selfadj, he, hrp]
+  have h2 : B p r = B r r := by rw [symm, hrp]
+  have hsplit : xs - (x + (B r r / B p (H p)) • p) = (xs - x) - (B r r / B p (H p)) • p := by abel
+  rw [hsplit]
+  generalize xs - x = e at he h1 ⊢
+  have hne : B p (H p) ≠ 0 := ne_of_gt hphp
+  have e1 : B r r / B p (H p) * B p (H p) = B r r := div_mul_cancel₀ _ hne
+  have e2 : 0 ≤ B r r / B p (H p) * (B r r) := by
+    have : B r r / B p (H p) * (B r r) = (B r r)^2 / B p (H p) := by field_simp
+    rw [this]; exact div_nonneg (sq_nonneg _) hphp.le
+  rw [map_sub H, map_smul H, he]
+  simp only [map_sub, map_smul, LinearMap.sub_apply, LinearMap.smul_apply, smul_eq_mul]
+  rw [h1, h2, e1]
+  linarith
+
+/-! scaling simulation (for `cg_homogeneous`) -/
+
+def scSt (c : K) (st : CGState K V) : CGState K V :=
+  { x := c • st.x, r := c • st.r, p := c • st.p, rrPrev := st.rrPrev.map (fun q => c * c * q) }
+
+def scTr (c : K) (t : CGTrace V) : CGTrace V := { x := c • t.x, r := c • t.r, k := t.k }
+
+omit [IsStrictOrderedRing K] in
+theorem cgLoop_succ_none (fuel k : Nat) (st : CGState K V) (tr : List (CGTrace V)) :
+    cgLoop (modOps' B) (fun v => H v) none (fuel + 1) k st tr =
+      if B st.r st.r = 0 then .ok st.x "zero-residual" tr.reverse
+      else match nextP B st with
+        | none => .nan k tr.reverse
+        | some p =>
+          if B p (H p) = 0 then .nan k tr.reverse
+          else cgLoop (modOps' B) (fun v => H v) none fuel (k + 1) (stepSt B H st p)
+            (stepTr B H st p k :: tr) := rfl
+
+omit [LinearOrder K] [IsStrictOrderedRing K] in
+theorem B_smul_smul (c : K) (u v : V) : B (c • u) (c • v) = c * c * B u v := by
+  rw [map_smul, map_smul, LinearMap.smul_apply, smul_eq_mul, smul_eq_mul, mul_assoc]
+
+omit [IsStrictOrderedRing K] in
+theorem nextP_scale (c : K) (hc : c ≠ 0) (st : CGState K V) :
+    nextP B (scSt c st) = (nextP B st).map (fun v => c • v) := by
+  have hcc : c * c ≠ 0 := mul_ne_zero hc hc
+  unfold nextP scSt
+  cases st.rrPrev with
+  | none => rfl
+  | some prev =>
+    simp only [Option.map_some]
+    by_cases hprev : prev = 0
+    · rw [if_pos hprev, if_pos (by rw [hprev, mul_zero])]; rfl
+    · rw [if_neg hprev, if_neg (mul_ne_zero hcc hprev), Option.map_some, B_smul_smul,
+        mul_div_mul_left _ _ hcc, smul_add, smul_comm]
+
+omit [LinearOrder K] [IsStrictOrderedRing K] in
+theorem stepSt_scale (c : K) (hc : c ≠ 0) (st : CGState K V) (p : V) :
+    stepSt B H (scSt c st) (c • p) = scSt c (stepSt B H st p) := by
+  have hcc : c * c ≠ 0 := mul_ne_zero hc hc
+  have hH : H (c • p) = c • H p := map_smul H c p
+  simp only [stepSt, scSt, Option.map_some]
+  rw [hH, B_smul_smul, B_smul_smul, mul_div_mul_left _ _ hcc, smul_add, smul_sub, smul_comm c,
+    smul_comm c]
+
+omit [LinearOrder K] [IsStrictOrderedRing K] in
+theorem stepTr_scale (c : K) (hc : c ≠ 0) (st : CGState K V) (p : V) (k : Nat) :
+    stepTr B H (scSt c st) (c • p) k = scTr c (stepTr B H st p k) := by
+  have h := stepSt_scale B H c hc st p
+  unfold stepSt scSt at h
+  unfold stepTr scTr scSt
+  simp only [CGState.mk.injEq] at h
+  simp only [h.1, h.2.1]
+
+omit [IsStrictOrderedRing K] in
+theorem cgLoop_scale (c : K) (hc : c ≠ 0) :
+    ∀ (fuel k : Nat) (st : CGState K V) (tr : List (CGTrace V)) (x : V) (reason : String)
+      (out : List (CGTrace V)),
+      cgLoop (modOps' B) (fun v => H v) none fuel k st tr = .ok x reason out →
+      cgLoop (modOps' B) (fun v => H v) none fuel k (scSt c st) (tr.map (scTr c))
+        = .ok (c • x) reason (out.map (scTr c)) := by
+  have hcc : c * c ≠ 0 := mul_ne_zero hc hc
+  intro fuel
+  induction fuel with
+  | zero =>
+    intro k st tr x reason out h
+    rw [cgLoop_zero] at h ⊢
+    cases h
+    rw [List.map_reverse]; rfl
+  | succ fuel ih =>
+    intro k st tr x reason out h
+    have hB : B (scSt c st).r (scSt c st).r = c * c * B st.r st.r := B_smul_smul B c _ _
+    rw [cgLoop_succ_none] at h ⊢
+    by_cases hrr : B st.r st.r = 0
+    · rw [if_pos hrr] at h
+      rw [if_pos (by rw [hB, hrr, mul_zero])]
+      cases h
+      rw [List.map_reverse]; rfl
+    · rw [if_neg hrr] at h
+      rw [if_neg (by rw [hB]; exact mul_ne_zero hcc hrr), nextP_scale B c hc]
+      cases hp : nextP B st with
+      | none => rw [hp] at h; cases h
+      | some p =>
+        rw [hp] at h
+        simp only [Option.map_some] at h ⊢
+        by_cases hphp : B p (H p) = 0
+        · rw [if_pos hphp] at h; cases h
+        · rw [if_neg hphp] at h
+          rw [if_neg (by rw [map_smul H, B_smul_smul]; exact mul_ne_zero hcc hphp),
+            stepSt_scale B H c hc, stepTr_scale B H c hc, ← List.map_cons]
+          exact ih _ _ _ _ _ _ h
+
+end helpers
+
 variable (B : V →ₗ[K] V →ₗ[K] K) (H : V →ₗ[K] V)
   (symm : ∀ u v, B u v = B v u) (posB : ∀ v, v ≠ 0 → 0 < B v v)
   (selfadj : ∀ u v, B (H u) v = B u (H v)) (posH : ∀ v, v ≠ 0 → 0 < B v (H v))
 include symm posB selfadj posH
 
+omit posB in
+theorem inv_step (b : V) (st : CGState K V) (hinv : Inv B H b st) (hrr : B st.r st.r ≠ 0) :
+    ∃ p, nextP B st = some p ∧ 0 < B p (H p) ∧ Inv B H b (stepSt B H st p) ∧
+      (stepTr B H st p 0).r = b - H (stepTr B H st p 0).x ∧
+      ∀ xs, H xs = b → B (xs - (stepSt B H st p).x) (H (xs - (stepSt B H st p).x))
+        ≤ B (xs - st.x) (H (xs - st.x)) := by
+  obtain ⟨p, hp, hrp⟩ := nextP_spec B H b st hinv
+  have hp0 : p ≠ 0 := by
+    rintro rfl
+    rw [map_zero] at hrp
+    exact hrr hrp.symm
+  have hphp := posH p hp0
+  refine ⟨p, hp, hphp, ⟨step_res H b _ _ _ _ hinv.1, hrr, ?_⟩, step_res H b _ _ _ _ hinv.1, ?_⟩
+  · exact step_orth B H selfadj _ _ hrp (ne_of_gt hphp)
+  · intro xs hxs
+    exact step_energy B H symm selfadj b xs st.x st.r p hxs hinv.1 hrp hphp
+
+theorem cgLoop_spec (b : V) (tol2 : Option K) :
+    ∀ (fuel k : Nat) (st : CGState K V) (tr : List (CGTrace V)), Inv B H b st →
+    ∃ x reason new,
+      cgLoop (modOps' B) (fun v => H v) tol2 fuel k st tr = .ok x reason (tr.reverse ++ new)
+      ∧ (∀ t ∈ new, t.r = b - H t.x)
+      ∧ new.map (·.k) = List.range' k new.length
+      ∧ new.length ≤ fuel
+      ∧ x = ((new.map (·.x)).getLast?).getD st.x
+      ∧ (∀ xs, H xs = b →
+          List.IsChain (fun u v => B (xs - v) (H (xs - v)) ≤ B (xs - u) (H (xs - u)))
+            (st.x :: new.map (·.x)))
+      ∧ (reason = "zero-residual" → H x = b)
+      ∧ (∀ t, reason = "tolerance" → tol2 = some t → B (b - H x) (b - H x) < t)
+      ∧ reason ≠ "zero-initial-residual" := by
+  intro fuel
+  induction fuel with
+  | zero =>
+    intro k st tr _
+    refine ⟨st.x, "budget", [], by simp [cgLoop_zero], by simp, by simp, by simp, by simp,
+      fun _ _ => by simp, ?_, ?_, by decide⟩
+    · intro h; exact absurd h (by decide)
+    · intro t h; exact absurd h (by decide)
+  | succ fuel ih =>
+    intro k st tr hinv
+    rw [cgLoop_succ]
+    by_cases hrr : B st.r st.r = 0
+    · rw [if_pos hrr]
+      refine ⟨st.x, "zero-residual", [], by simp, by simp, by simp, by simp, by simp,
+        fun _ _ => by simp, ?_, ?_, by decide⟩
+      · intro _
+        have hr0 : st.r = 0 := by
+          by_contra hne
+          exact (ne_of_gt (posB _ hne)) hrr
+        have := hinv.1
+        rw [hr0] at this
+        exact (sub_eq_zero.mp this.symm).symm
+      · intro t h; exact absurd h (by decide)
+    · rw [if_neg hrr]
+      by_cases htol : tolHit tol2 (B st.r st.r) = true
+      · rw [if_pos htol]
+        refine ⟨st.x, "tolerance", [], by simp, by simp, by simp, by simp, by simp,
+          fun _ _ => by simp, ?_, ?_, by decide⟩
+        · intro h; exact absurd h (by decide)
+        · intro t _ ht
+          subst ht
+          rw [← hinv.1]
+          simpa [tolHit] using htol
+      · rw [if_neg htol]
+        obtain ⟨p, hp, hphp, hinv', hres, hen⟩ := inv_step B H symm selfadj posH b st hinv hrr
+        rw [hp]
+        simp only
+        rw [if_neg (ne_of_gt hphp)]
+        obtain ⟨x, reason, new, hrun, h1, h2, h3, h4, h5, h6, h7, h8⟩ :=
+          ih (k + 1) (stepSt B H st p) (stepTr B H st p k :: tr) hinv'
+        refine ⟨x, reason, stepTr B H st p k :: new, ?_, ?_, ?_, ?_, ?_, ?_, h6, h7, h8⟩
+        · rw [hrun]; simp
+        · intro t ht
+          rcases List.mem_cons.mp ht with rfl | ht
+          · exact hres
+          · exact h1 t ht
+        · simp only [List.map_cons, List.length_cons, List.range'_succ]
+          rw [h2]; rfl
+        · simp only [List.length_cons]; omega
+        · rw [h4, List.map_cons, List.getLast?_cons]; rfl
+        · intro xs hxs
+          rw [List.map_cons]
+          exact List.isChain_cons_cons.mpr ⟨hen xs hxs, h5 xs hxs⟩
+
+theorem cgRun_spec (b : V) (x0 : Option V) (maxIter : Nat) (tol2 : Option K) :
+    ∃ x reason tr,
+      cgRun (modOps' B) (fun v => H v) b x0 maxIter tol2 = .ok x reason tr
+      ∧ (∀ t ∈ tr, t.r = b - H t.x)
+      ∧ tr.map (·.k) = List.range tr.length
+      ∧ tr.length ≤ maxIter
+      ∧ x = ((tr.map (·.x)).getLast?).getD (start' b x0)
+      ∧ (∀ xs, H xs = b →
+          List.IsChain (fun u v => B (xs - v) (H (xs - v)) ≤ B (xs - u) (H (xs - u)))
+            (start' b x0 :: tr.map (·.x)))
+      ∧ (reason = "zero-residual" ∨ reason = "zero-initial-residual" → H x = b)
+      ∧ (∀ t, reason = "tolerance" → tol2 = some t → B (b - H x) (b - H x) < t) := by
+  have hinit : Inv B H b (cgInit (modOps' B) (fun v => H v) b x0) := ⟨rfl, rfl⟩
+  have hx : (cgInit (modOps' B) (fun v => H v) b x0).x = start' b x0 := by
+    cases x0 <;> rfl
+  have hr : (cgInit (modOps' B) (fun v => H v) b x0).r = b - H (start' b x0) := by
+    cases x0 <;> rfl
+  by_cases hrr : B (cgInit (modOps' B) (fun v => H v) b x0).r (cgInit (modOps' B) (fun v => H v) b x0).r = 0
+  · have hrun : cgRun (modOps' B) (fun v => H v) b x0 maxIter tol2
+        = .ok (start' b x0) "zero-initial-residual" [] := by
+      unfold cgRun
+      simp only
+      refine (if_pos hrr).trans ?_
+      rw [hx]
+    refine ⟨_, _, _, hrun, by simp, by simp, by simp, by simp, fun _ _ => by simp, ?_, ?_⟩
+    · intro _
+      have hr0 : b - H (start' b x0) = 0 := by
+        rw [hr] at hrr
+        by_contra hne
+        exact (ne_of_gt (posB _ hne)) hrr
+      exact (sub_eq_zero.mp hr0).symm
+    · intro t h; exact absurd h (by decide)
+  · obtain ⟨x, reason, new, hloop, h1, h2, h3, h4, h5, h6, h7, h8⟩ :=
+      cgLoop_spec B H symm posB selfadj posH b tol2 maxIter 0 _ [] hinit
+    have hrun : cgRun (modOps' B) (fun v => H v) b x0 maxIter tol2 = .ok x reason new := by
+      unfold cgRun
+      simp only
+      refine (if_neg hrr).trans ?_
+      rw [hloop]; simp
+    rw [hx] at h4 h5
+    refine ⟨x, reason, new, hrun, h1, ?_, h3, h4, h5, ?_, h7⟩
+    · rw [h2, List.range_eq_range']
+    · rintro (h | h)
+      · exact h6 h
+      · exact absurd h h8
+
 theorem cg_no_nan (b : V) (x0 : Option V) (maxIter : Nat) (tol2 : Option K) :
-    ∃ x reason tr, cgRun (modOps' B) (fun v => H v) b x0 maxIter tol2 = .ok x reason tr := by sorry
+    ∃ x reason tr, cgRun (modOps' B) (fun v => H v) b x0 maxIter tol2 = .ok x reason tr := by
+  obtain ⟨x, reason, tr, h, _⟩ := cgRun_spec B H symm posB selfadj posH b x0 maxIter tol2
+  exact ⟨x, reason, tr, h⟩
 
 theorem cg_trace_residual (b : V) (x0 : Option V) (maxIter : Nat) (tol2 : Option K)
     (x : V) (reason : String) (tr : List (CGTrace V))
     (hrun : cgRun (modOps' B) (fun v => H v) b x0 maxIter tol2 = .ok x reason tr) :
-    (∀ t ∈ tr, t.r = b - H t.x) ∧ tr.map (·.k) = List.range tr.length ∧ tr.length ≤ maxIter := by sorry
+    (∀ t ∈ tr, t.r = b - H t.x) ∧ tr.map (·.k) = List.range tr.length ∧ tr.length ≤ maxIter := by
+  obtain ⟨x', reason', tr', h, h1, h2, h3, h4, h5, h6, h7⟩ :=
+    cgRun_spec B H symm posB selfadj posH b x0 maxIter tol2
+  rw [h] at hrun
+  cases hrun
+  exact ⟨h1, h2, h3⟩
 
 theorem cg_returns_last (b : V) (x0 : Option V) (maxIter : Nat) (tol2 : Option K)
     (x : V) (reason : String) (tr : List (CGTrace V))
     (hrun : cgRun (modOps' B) (fun v => H v) b x0 maxIter tol2 = .ok x reason tr) :
-    x = ((tr.map (·.x)).getLast?).getD (start' b x0) := by sorry
+    x = ((tr.map (·.x)).getLast?).getD (start' b x0) := by
+  obtain ⟨x', reason', tr', h, h1, h2, h3, h4, h5, h6, h7⟩ :=
+    cgRun_spec B H symm posB selfadj posH b x0 maxIter tol2
+  rw [h] at hrun
+  cases hrun
+  exact h4
 
 theorem cg_exact_stop (b : V) (x0 : Option V) (maxIter : Nat) (tol2 : Option K)
     (x : V) (reason : String) (tr : List (CGTrace V))
     (hrun : cgRun (modOps' B) (fun v => H v) b x0 maxIter tol2 = .ok x reason tr)
-    (hreason : reason = "zero-residual" ∨ reason = "zero-initial-residual") : H x = b := by sorry
+    (hreason : reason = "zero-residual" ∨ reason = "zero-initial-residual") : H x = b := by
+  obtain ⟨x', reason', tr', h, h1, h2, h3, h4, h5, h6, h7⟩ :=
+    cgRun_spec B H symm posB selfadj posH b x0 maxIter tol2
+  rw [h] at hrun
+  cases hrun
+  exact h6 hreason
 
 theorem cg_tolerance_stop (b : V) (x0 : Option V) (maxIter : Nat) (t : K)
     (x : V) (tr : List (CGTrace V))
     (hrun : cgRun (modOps' B) (fun v => H v) b x0 maxIter (some t) = .ok x "tolerance" tr) :
-    B (b - H x) (b - H x) < t := by sorry
+    B (b - H x) (b - H x) < t := by
+  obtain ⟨x', reason', tr', h, h1, h2, h3, h4, h5, h6, h7⟩ :=
+    cgRun_spec B H symm posB selfadj posH b x0 maxIter (some t)
+  rw [h] at hrun
+  cases hrun
+  exact h7 t rfl rfl
 
 theorem cg_error_monotone (b : V) (x0 : Option V) (maxIter : Nat) (tol2 : Option K)
     (x : V) (reason : String) (tr : List (CGTrace V)) (xs : V) (hxs : H xs = b)
     (hrun : cgRun (modOps' B) (fun v => H v) b x0 maxIter tol2 = .ok x reason tr) :
     List.IsChain (fun u v => B (xs - v) (H (xs - v)) ≤ B (xs - u) (H (xs - u))) (start' b x0 :: tr.map (·.x)) := by
-  sorry
+  obtain ⟨x', reason', tr', h, h1, h2, h3, h4, h5, h6, h7⟩ :=
+    cgRun_spec B H symm posB selfadj posH b x0 maxIter tol2
+  rw [h] at hrun
+  cases hrun
+  exact h5 xs hxs
 
+/- the HPD hypotheses are not needed here (a run that returned `.ok` is simulated step by step);
+they stay in the signature because `Props/C06.lean` passes them -/
+set_option linter.unusedSectionVars false in
 theorem cg_homogeneous (b : V) (x0 : Option V) (maxIter : Nat) (c : K) (hc : c ≠ 0)
     (x : V) (reason : String) (tr : List (CGTrace V))
     (hrun : cgRun (modOps' B) (fun v => H v) b x0 maxIter none = .ok x reason tr) :
     ∃ tr', cgRun (modOps' B) (fun v => H v) (c • b) (x0.map (fun v => c • v)) maxIter none = .ok (c • x) reason tr'
-      ∧ tr'.map (·.x) = tr.map (fun t => c • t.x) := by sorry
+      ∧ tr'.map (·.x) = tr.map (fun t => c • t.x) := by
+  have hinit : cgInit (modOps' B) (fun v => H v) (c • b) (x0.map (fun v => c • v))
+      = scSt c (cgInit (modOps' B) (fun v => H v) b x0) := by
+    cases x0 <;> simp [cgInit, scSt, modOps', smul_sub]
+  refine ⟨tr.map (scTr c), ?_, by simp [scTr, Function.comp_def]⟩
+  have hB : B (scSt c (cgInit (modOps' B) (fun v => H v) b x0)).r
+      (scSt c (cgInit (modOps' B) (fun v => H v) b x0)).r
+      = c * c * B (cgInit (modOps' B) (fun v => H v) b x0).r (cgInit (modOps' B) (fun v => H v) b x0).r :=
+    B_smul_smul B c _ _
+  unfold cgRun at hrun ⊢
+  simp only at hrun ⊢
+  rw [hinit]
+  by_cases hrr : B (cgInit (modOps' B) (fun v => H v) b x0).r (cgInit (modOps' B) (fun v => H v) b x0).r = 0
+  · rw [show (modOps' B).dot = fun u v => B u v from rfl] at hrun ⊢
+    simp only at hrun ⊢
+    rw [if_pos hrr] at hrun
+    rw [if_pos (by rw [hB, hrr, mul_zero])]
+    cases hrun
+    rfl
+  · rw [show (modOps' B).dot = fun u v => B u v from rfl] at hrun ⊢
+    simp only at hrun ⊢
+    rw [if_neg hrr] at hrun
+    rw [if_neg (by rw [hB]; exact mul_ne_zero (mul_ne_zero hc hc) hrr)]
+    exact cgLoop_scale B H c hc _ _ _ [] _ _ _ hrun
 end M
